@@ -61,6 +61,9 @@ def spec_namespace():
             if path.endswith("__init__.py"):
                 continue
             exec(compile_spec(open(path).read(), "exec", path), ns)
+        views = os.path.join(VERIF, "rt", "views.py")      # concrete definitions of the abstract views the contracts name
+        if os.path.exists(views):
+            exec(compile(open(views).read(), views, "exec"), ns)
         _spec_ns = ns
     return _spec_ns
 
@@ -71,6 +74,7 @@ def load_contracts():
         name = os.path.basename(path)[:-3]
         if name != "__init__":
             importlib.import_module("contracts." + name)
+    C.apply_bounded_registry()
 
 
 def real_function(ct):
